@@ -8,6 +8,8 @@ def run_check(tier, seed, replay=None):
                 ("sweep", "sweep", [], False),
                 ("random", "random", ["--n", "1200" if quick else "20000"], False),
                 ("enums", "enums", [], False),
+                # context-dependent literals of every width with boundary bit patterns (high bits above a narrow type's width)
+                ("literals", "literals", [], False),
                 ("raw", "raw", ["--n", "400" if quick else "8000"], False)],
         required_outcomes=["ok"],
         assumptions=BASE_ASSUMPTIONS + ["inputs are zero-padded after string terminators, so re-encoding must be word-identical (the property tolerates differences there only)",
